@@ -115,8 +115,14 @@ def get_stage(R, keep_workspace=False):
         if not ok:
             raise RuntimeError("pavexc does not build with hooks on: " + out[-1500:])
         # drop stale stages / workspaces of other tree states
-        for p in glob.glob(os.path.join(SCRATCH, "stage-*.json")) + glob.glob(os.path.join(SCRATCH, "ws-*")):
-            if key not in p:
+        # (only if they have not been touched for a while: another check may be using them right now)
+        for p in glob.glob(os.path.join(SCRATCH, "stage-*.json")) + glob.glob(os.path.join(SCRATCH, "runtime-*.json")) + \
+                glob.glob(os.path.join(SCRATCH, "ws-*")):
+            try:
+                stale = time.time() - os.stat(p).st_mtime > 2 * 3600
+            except OSError:
+                continue
+            if key not in p and stale:
                 shutil.rmtree(p, ignore_errors=True) if os.path.isdir(p) else os.unlink(p)
         progs = build_programs(R)
         obs = {}
